@@ -74,6 +74,7 @@ type Options struct {
 	MaxRowsPerSegment int  // 0 = default
 	Background        bool // keep background compaction/merge enabled
 	MemDataRead       bool
+	CompactionMethod  int // 0 auto, 1 streaming, 2 non-streaming (data.compact.compaction-method)
 }
 
 func shardTime() (time.Time, time.Time) {
@@ -136,6 +137,7 @@ func Open(dir string, o Options) (*Env, error) {
 	opt.FragmentsNumPerFlush = 1
 	opt.ReadPageSize = "32kb"
 	opt.CompactRecovery = true
+	opt.CompactionMethod = o.CompactionMethod
 	opt.MaxRowsPerSegment = o.MaxRowsPerSegment
 	if opt.MaxRowsPerSegment == 0 {
 		opt.MaxRowsPerSegment = util.DefaultMaxRowsPerSegment4TsStore
